@@ -167,6 +167,62 @@ fn replay_codepage(args: &[String]) -> i32 {
     if bad { 1 } else { 0 }
 }
 
+/// C13: `logic <a> <b>` -- AND / OR / NOT through the public API on a row holding (a, b)
+fn replay_logic(args: &[String]) -> i32 {
+    let a = val(&args[0]);
+    let b = val(&args[1]);
+    panic::set_hook(Box::new(|_| {}));
+    let truth = |v: &Value| match v { Value::Null => false, Value::Int(n) => *n != 0, Value::Str(s) => !s.is_empty() };
+    let (ta, tb) = (truth(&a), truth(&b));
+    let (a2, b2) = (a.clone(), b.clone());
+    let got = panic::catch_unwind(move || {
+        let row = row_with(&a2, &b2);
+        (
+            Expr::col("A").and(Expr::col("B")).eval(&row),
+            Expr::col("A").or(Expr::col("B")).eval(&row),
+            Expr::col("A").not().eval(&row),
+        )
+    });
+    let want = (Value::Int((ta && tb) as i32), Value::Int((ta || tb) as i32), Value::Int((!ta) as i32));
+    let (bad, shown) = match got {
+        Ok(g) => (g != want, format!("and={} or={} not={} expected and={} or={} not={}", show(&g.0), show(&g.1), show(&g.2), show(&want.0), show(&want.1), show(&want.2))),
+        Err(_) => (true, "PANIC".to_string()),
+    };
+    println!("REPLAY family=logic a={} b={} {shown} verdict={}", show(&a), show(&b), if bad { "VIOLATED" } else { "ok" });
+    if bad { 1 } else { 0 }
+}
+
+/// C17: `lang code <c>` -- code preserved, tag() does not panic, tag -> language -> tag is stable;
+///      `lang tag <t> <code>` -- from_tag(t).code() == code;
+///      `lang bogus <t> <primary>` -- from_tag(t) has that primary language and its tag is the bare language tag
+fn replay_lang(args: &[String]) -> i32 {
+    panic::set_hook(Box::new(|_| {}));
+    let a: Vec<String> = args.to_vec();
+    let r = panic::catch_unwind(move || match a[0].as_str() {
+        "code" => {
+            let c: u16 = a[1].parse().unwrap();
+            let l = msi::Language::from_code(c);
+            let t = l.tag().to_string();
+            let back = msi::Language::from_tag(&t).tag().to_string();
+            (l.code() != c || back != t, format!("code={c} code()={} tag={t} from_tag(tag).tag()={back}", l.code()))
+        }
+        "tag" => {
+            let want: u16 = a[2].parse().unwrap();
+            let got = msi::Language::from_tag(&a[1]).code();
+            (got != want, format!("from_tag({:?}).code()={got} expected {want}", a[1]))
+        }
+        _ => {
+            let primary: u16 = a[2].parse().unwrap();
+            let l = msi::Language::from_tag(&a[1]);
+            let bare = a[1].split('-').next().unwrap().to_string();
+            (l.code() & 0x3ff != primary || l.tag() != bare, format!("from_tag({:?}) = code {} tag {}; expected primary {primary} and bare tag {bare}", a[1], l.code(), l.tag()))
+        }
+    });
+    let (bad, shown) = r.unwrap_or((true, "PANIC".to_string()));
+    println!("REPLAY family=lang {shown} verdict={}", if bad { "VIOLATED" } else { "ok" });
+    if bad { 1 } else { 0 }
+}
+
 fn main() {
     let args: Vec<String> = std::env::args().skip(1).collect();
     if args.is_empty() {
@@ -176,6 +232,8 @@ fn main() {
     let rc = match args[0].as_str() {
         "expr" => replay_expr(&args[1..]),
         "codepage" => replay_codepage(&args[1..]),
+        "logic" => replay_logic(&args[1..]),
+        "lang" => replay_lang(&args[1..]),
         _ => 2,
     };
     std::process::exit(rc);
